@@ -37,7 +37,7 @@ OPERATORS = {
 # documented functions: name -> (arity, acceptable element-wise implementations)
 FUNCTIONS = {
     "gt": (2, ["Op.gt"]), "ge": (2, ["Op.ge"]), "eq": (2, ["Op.eq"]), "neq": (2, ["Op.neq"]), "le": (2, ["Op.le"]), "lt": (2, ["Op.lt"]),
-    "min": (2, ["np.minimum", "np.fmin"]), "max": (2, ["np.maximum", "np.fmax"]),
+    "min": (2, ["np.minimum"]), "max": (2, ["np.maximum"]),          # NaN in, NaN out - like every other function of the table (np.fmin / np.fmax would drop a NaN operand)
     "acos": (1, ["np.arccos"]), "asin": (1, ["np.arcsin"]), "atan": (1, ["np.arctan"]), "ceil": (1, ["np.ceil"]), "cos": (1, ["np.cos"]),
     "cosh": (1, ["np.cosh"]), "exp": (1, ["np.exp"]), "abs": (1, ["np.fabs", "np.abs", "np.absolute"]), "fabs": (1, ["np.fabs", "np.abs", "np.absolute"]),
     "floor": (1, ["np.floor"]), "log": (1, ["np.log"]), "log10": (1, ["np.log10"]), "round": (1, ["np.round", "np.rint", "np.around"]),
@@ -444,11 +444,14 @@ def verify_function_load(run):
 
 
 def build(run):
-    run.assume("A-REAL", "A-NP", "A-PY", "A-LIFT", "A-STR", "A-MSG", "A-LOG")
+    run.assume("A-REAL", "A-NP", "A-PY", "A-LIFT", "A-STR", "A-MSG", "A-LOG", "A-POSTFIX")
     from props import C16
     plan = [("factory.FunctionFactory._create_operators", verify_table), ("factory.FunctionFactory._create_functions", verify_functions),
             ("operation.Op.relational", verify_relational), ("term.Function.infix_to_postfix", C16.verify_infix_to_postfix),
-            ("term.Function.parse", verify_function_parse), ("term.Function.Node.evaluate", verify_node_evaluate), ("term.Function.load", verify_function_load)]
+            ("term.Function.parse", verify_function_parse), ("term.Function.Node.evaluate", verify_node_evaluate), ("term.Function.load", verify_function_load),
+            # WHERE every token ends up in the postfix text, for formulas over binary operators and parentheses (props/shunting.py): the positional form of
+            # "higher precedence binds tighter, equal precedence associates by the sign, parentheses override"
+            ("term.Function.infix_to_postfix/order", lambda r: __import__("props.shunting", fromlist=["x"]).verify_infix_order(r, RP_FORM))]
     for fq, f in plan:
         try:
             f(run)
